@@ -194,6 +194,3 @@ func passK(repo string, cfg *vc.SolverConfig, only string) (*vc.PassResult, erro
 	return nil, fmt.Errorf("passK not built yet")
 }
 
-func passG(repo string, cfg *vc.SolverConfig, only, corpus, scratch string) (*vc.PassResult, error) {
-	return nil, fmt.Errorf("passG not built yet")
-}
